@@ -58,6 +58,14 @@ CLAIMED = {
              'wire). Three deviations are open known findings.',
         note='T1; Update.construct enters through an assumed abstract contract',
         ref='5 C18'),
+    'C11': dict(
+        text='AST inventory of every decoder function of yabgp/message with a while loop (36 functions, 41 loops on this tree): for each, the real body '
+             'is executed from an arbitrary loop-head state and the variant len(cursor) is proved to decrease strictly on every path through the '
+             'body (light mode: unmodelled operations are unknown values that may raise); abstracted callees must receive slices not longer than '
+             'the input (strictly shorter for dynamic TLV dispatch), static call graph acyclic, no process exit in decoders; Update.parse with '
+             'in-range length fields proved to return its result dict on every path.',
+        note='for-loops over finite containers and library calls terminate (assumed); light-mode over-approximation of unmodelled operations; T5',
+        ref='5 C11, App. E'),
 }
 checks = []
 for pid, c in CLAIMED.items():
@@ -77,7 +85,7 @@ m = {
                  'kind_free_text': 'home-made contract verifier: symbolic execution of the real /repo AST per function against '
                                    'sidecar contracts, obligations discharged by z3 (cvc5 second back end), native replay under /venv/bin/python'}],
     'checks': checks,
-    'notes': 'fix: commits in /repo (see known_findings.jsonl): 392e84f af6fcf3 5c6aba0 718ac22 a1681d0 ba1e9fe',
+    'notes': 'fix: commits in /repo (see known_findings.jsonl): 392e84f af6fcf3 5c6aba0 718ac22 a1681d0 ba1e9fe a4d66e3',
     'not_applicable': [{'property_id': p['id'], 'reason': 'check not built yet (build in progress); see DESIGN.md section 5'}
                        for p in props if p['id'] not in CLAIMED],
 }
